@@ -388,6 +388,9 @@ func c13Show(v any) string {
 
 var c13NotJudged, c13HalfJudged atomic.Int64
 
+// c13Sink receives a violation (key, message, replay).
+type c13Sink func(key, msg, replay string)
+
 // c13Judge compares (got, err) with the reference. want() builds the expected
 // value for the (lo,hi) of the reference. Returns "" or a mismatch kind.
 func c13Judge(r c13Ref, got any, err error, match func(got any) bool) string {
@@ -459,13 +462,13 @@ func c13Expect(r c13Ref, want string) string {
 }
 
 // c13CheckString runs Index and Assoc on one string with one index.
-func c13CheckString(c *vk.Ctx, l *vk.Local, st *c13Str, ix *c13Idx) {
+func c13CheckString(v c13Sink, l *vk.Local, st *c13Str, ix *c13Idx) {
 	r, suffix := c13StrRef(st, ix.ref)
 	s := st.s
 	var got any
 	var err error
 	if p := vk.Try(func() { got, err = vals.Index(s, ix.key) }); p != "" {
-		c.Violate("panic:"+vk.PanicSite(p), fmt.Sprintf("vals.Index(%q, %s) panicked: %s", s, ix.show, p), s+" "+ix.show)
+		v("panic:"+vk.PanicSite(p), fmt.Sprintf("vals.Index(%q, %s) panicked: %s", s, ix.show, p), s+" "+ix.show)
 		l.Case("panic")
 		return
 	}
@@ -474,7 +477,7 @@ func c13CheckString(c *vk.Ctx, l *vk.Local, st *c13Str, ix *c13Idx) {
 		want = s[r.lo:r.hi]
 	}
 	if m := c13Judge(r, got, err, func(g any) bool { return g == want }); m != "" {
-		c.Violate(c13Key("string", "index", m, err, st, r),
+		v(c13Key("string", "index", m, err, st, r),
 			fmt.Sprintf("vals.Index(%q, %s): got %s / %s, reference demands %s", s, ix.show, c13Show(got), c13ErrStr(err), c13Expect(r, strconv.Quote(want))),
 			s+" "+ix.show)
 	}
@@ -489,7 +492,7 @@ func c13CheckString(c *vk.Ctx, l *vk.Local, st *c13Str, ix *c13Idx) {
 	for _, repl := range c13Repl {
 		var res any
 		if p := vk.Try(func() { res, err = vals.Assoc(s, ix.key, repl) }); p != "" {
-			c.Violate("panic:"+vk.PanicSite(p), fmt.Sprintf("vals.Assoc(%q, %s, %q) panicked: %s", s, ix.show, repl, p), s+" "+ix.show)
+			v("panic:"+vk.PanicSite(p), fmt.Sprintf("vals.Assoc(%q, %s, %q) panicked: %s", s, ix.show, repl, p), s+" "+ix.show)
 			return
 		}
 		wantA := ""
@@ -497,7 +500,7 @@ func c13CheckString(c *vk.Ctx, l *vk.Local, st *c13Str, ix *c13Idx) {
 			wantA = s[:ar.lo] + repl + s[ar.hi:]
 		}
 		if m := c13Judge(ar, res, err, func(g any) bool { return g == wantA }); m != "" {
-			c.Violate(c13Key("string", "assoc", m, err, st, ar),
+			v(c13Key("string", "assoc", m, err, st, ar),
 				fmt.Sprintf("vals.Assoc(%q, %s, %q): got %s / %s, reference demands %s", s, ix.show, repl, c13Show(res), c13ErrStr(err), c13Expect(ar, strconv.Quote(wantA))),
 				s+" "+ix.show)
 		}
@@ -510,7 +513,7 @@ func c13CheckString(c *vk.Ctx, l *vk.Local, st *c13Str, ix *c13Idx) {
 var c13Repl = []string{"Z", "", "好"}
 
 // c13CheckList runs Index and Assoc on the list [e0 .. e(n-1)] with one index.
-func c13CheckList(c *vk.Ctx, l *vk.Local, n int, ix *c13Idx) {
+func c13CheckList(v c13Sink, l *vk.Local, n int, ix *c13Idx) {
 	elems := c13ListElems(n)
 	li := vals.MakeList(elems...)
 	r := ix.ref
@@ -518,7 +521,7 @@ func c13CheckList(c *vk.Ctx, l *vk.Local, n int, ix *c13Idx) {
 	var err error
 	desc := c13Show(li)
 	if p := vk.Try(func() { got, err = vals.Index(li, ix.key) }); p != "" {
-		c.Violate("panic:"+vk.PanicSite(p), fmt.Sprintf("vals.Index(%s, %s) panicked: %s", desc, ix.show, p), desc+" "+ix.show)
+		v("panic:"+vk.PanicSite(p), fmt.Sprintf("vals.Index(%s, %s) panicked: %s", desc, ix.show, p), desc+" "+ix.show)
 		l.Case("panic")
 		return
 	}
@@ -534,7 +537,7 @@ func c13CheckList(c *vk.Ctx, l *vk.Local, n int, ix *c13Idx) {
 		m = c13Judge(r, got, err, nil)
 	}
 	if m != "" {
-		c.Violate(c13Key("list", "index", m, err, nil, r),
+		v(c13Key("list", "index", m, err, nil, r),
 			fmt.Sprintf("vals.Index(%s, %s): got %s / %s, reference demands %s", desc, ix.show, c13Show(got), c13ErrStr(err), c13Expect(r, want)),
 			desc+" "+ix.show)
 	}
@@ -547,7 +550,7 @@ func c13CheckList(c *vk.Ctx, l *vk.Local, n int, ix *c13Idx) {
 	}
 	var res any
 	if p := vk.Try(func() { res, err = vals.Assoc(li, ix.key, "NEW") }); p != "" {
-		c.Violate("panic:"+vk.PanicSite(p), fmt.Sprintf("vals.Assoc(%s, %s, NEW) panicked: %s", desc, ix.show, p), desc+" "+ix.show)
+		v("panic:"+vk.PanicSite(p), fmt.Sprintf("vals.Assoc(%s, %s, NEW) panicked: %s", desc, ix.show, p), desc+" "+ix.show)
 		return
 	}
 	var wantL []any
@@ -556,12 +559,12 @@ func c13CheckList(c *vk.Ctx, l *vk.Local, n int, ix *c13Idx) {
 		wantL[ar.lo] = "NEW"
 	}
 	if m := c13Judge(ar, res, err, func(g any) bool { return c13ListIs(g, wantL) }); m != "" {
-		c.Violate(c13Key("list", "assoc", m, err, nil, ar),
+		v(c13Key("list", "assoc", m, err, nil, ar),
 			fmt.Sprintf("vals.Assoc(%s, %s, NEW): got %s / %s, reference demands %s", desc, ix.show, c13Show(res), c13ErrStr(err), c13Expect(ar, c13Show(vals.MakeList(wantL...)))),
 			desc+" "+ix.show)
 	}
 	if !c13ListIs(li, elems) {
-		c.Violate("list-assoc-original-changed", fmt.Sprintf("after vals.Assoc(%s, %s, NEW) the original list is %s", desc, ix.show, c13Show(li)), desc+" "+ix.show)
+		v("list-assoc-original-changed", fmt.Sprintf("after vals.Assoc(%s, %s, NEW) the original list is %s", desc, ix.show, c13Show(li)), desc+" "+ix.show)
 	}
 }
 
@@ -588,7 +591,7 @@ func c13Eval(ev *eval.Evaler, code string, x, i any) (r any, rset bool, xAfter a
 	return r, rset, xv.Get(), err
 }
 
-func c13CheckEval(c *vk.Ctx, l *vk.Local, ev *eval.Evaler, ec *c13EvCase) {
+func c13CheckEval(v c13Sink, l *vk.Local, ev *eval.Evaler, ec *c13EvCase) {
 	ix := ec.ix
 	var x any
 	var elems []any
@@ -638,30 +641,30 @@ func c13CheckEval(c *vk.Ctx, l *vk.Local, ev *eval.Evaler, ec *c13EvCase) {
 		t := ix.key.(string)
 		variants = append(variants, variant{"set r = $x[" + t + "]", "set x[" + t + "] = $v"})
 	}
-	for _, v := range variants {
+	for _, vr := range variants {
 		// --- read
 		var got, xa any
 		var rset bool
 		var err error
-		if p := vk.Try(func() { got, rset, xa, err = c13Eval(ev, v.get, x, ix.key) }); p != "" {
-			c.Violate("panic:"+vk.PanicSite(p), fmt.Sprintf("x=%s i=%s; %s panicked: %s", desc, ix.show, v.get, p), desc+" "+v.get)
+		if p := vk.Try(func() { got, rset, xa, err = c13Eval(ev, vr.get, x, ix.key) }); p != "" {
+			v("panic:"+vk.PanicSite(p), fmt.Sprintf("x=%s i=%s; %s panicked: %s", desc, ix.show, vr.get, p), desc+" "+vr.get)
 			return
 		}
 		if _, isExc := err.(eval.Exception); err != nil && !isExc {
-			c.Violate("evaler-non-exception-error", fmt.Sprintf("x=%s i=%s; %s: %v", desc, ix.show, v.get, err), desc+" "+v.get)
+			v("evaler-non-exception-error", fmt.Sprintf("x=%s i=%s; %s: %v", desc, ix.show, vr.get, err), desc+" "+vr.get)
 			return
 		}
 		if err == nil && !rset {
-			c.Violate("evaler-no-value", fmt.Sprintf("x=%s i=%s; %s: no exception and no value assigned", desc, ix.show, v.get), desc+" "+v.get)
+			v("evaler-no-value", fmt.Sprintf("x=%s i=%s; %s: no exception and no value assigned", desc, ix.show, vr.get), desc+" "+vr.get)
 		}
 		elem := r.kind == c13Elem || r.kind == c13MaybeElem
 		if m := c13Judge(r, got, err, func(g any) bool { return same(g, r.lo, c13EvHi(r, ec.st), elem) }); m != "" {
-			c.Violate(c13Key(cont, "eval-index", m, err, ec.st, r),
-				fmt.Sprintf("x=%s i=%s; %s: got %s / %s, reference demands %s", desc, ix.show, v.get, c13Show(got), c13ErrStr(err), c13Expect(r, wantShow(r))),
-				desc+" "+v.get)
+			v(c13Key(cont, "eval-index", m, err, ec.st, r),
+				fmt.Sprintf("x=%s i=%s; %s: got %s / %s, reference demands %s", desc, ix.show, vr.get, c13Show(got), c13ErrStr(err), c13Expect(r, wantShow(r))),
+				desc+" "+vr.get)
 		}
 		if !unchanged(xa) {
-			c.Violate(cont+"-eval-index-changed-variable", fmt.Sprintf("x=%s i=%s; %s changed $x to %s", desc, ix.show, v.get, c13Show(xa)), desc+" "+v.get)
+			v(cont+"-eval-index-changed-variable", fmt.Sprintf("x=%s i=%s; %s changed $x to %s", desc, ix.show, vr.get, c13Show(xa)), desc+" "+vr.get)
 		}
 		// --- write
 		ar := r
@@ -670,16 +673,16 @@ func c13CheckEval(c *vk.Ctx, l *vk.Local, ev *eval.Evaler, ec *c13EvCase) {
 		} else if ar.kind == c13Slice {
 			ar.kind = c13MaybeSlice
 		}
-		if p := vk.Try(func() { _, _, xa, err = c13Eval(ev, v.set, x, ix.key) }); p != "" {
-			c.Violate("panic:"+vk.PanicSite(p), fmt.Sprintf("x=%s i=%s; %s panicked: %s", desc, ix.show, v.set, p), desc+" "+v.set)
+		if p := vk.Try(func() { _, _, xa, err = c13Eval(ev, vr.set, x, ix.key) }); p != "" {
+			v("panic:"+vk.PanicSite(p), fmt.Sprintf("x=%s i=%s; %s panicked: %s", desc, ix.show, vr.set, p), desc+" "+vr.set)
 			return
 		}
 		if _, isExc := err.(eval.Exception); err != nil && !isExc {
-			c.Violate("evaler-non-exception-error", fmt.Sprintf("x=%s i=%s; %s: %v", desc, ix.show, v.set, err), desc+" "+v.set)
+			v("evaler-non-exception-error", fmt.Sprintf("x=%s i=%s; %s: %v", desc, ix.show, vr.set, err), desc+" "+vr.set)
 			return
 		}
 		if err != nil && !unchanged(xa) {
-			c.Violate(cont+"-set-failed-but-changed", fmt.Sprintf("x=%s i=%s; %s raised %v but $x is now %s", desc, ix.show, v.set, err, c13Show(xa)), desc+" "+v.set)
+			v(cont+"-set-failed-but-changed", fmt.Sprintf("x=%s i=%s; %s raised %v but $x is now %s", desc, ix.show, vr.set, err, c13Show(xa)), desc+" "+vr.set)
 		}
 		wantS, wantL := "", []any(nil)
 		if ar.kind != c13Err && ar.kind != c13NJ {
@@ -700,13 +703,13 @@ func c13CheckEval(c *vk.Ctx, l *vk.Local, ev *eval.Evaler, ec *c13EvCase) {
 			if ec.st == nil {
 				w = c13Show(vals.MakeList(wantL...))
 			}
-			c.Violate(c13Key(cont, "set", m, err, ec.st, ar),
-				fmt.Sprintf("x=%s i=%s; %s: $x is now %s / %s, reference demands %s", desc, ix.show, v.set, c13Show(xa), c13ErrStr(err), c13Expect(ar, w)),
-				desc+" "+v.set)
+			v(c13Key(cont, "set", m, err, ec.st, ar),
+				fmt.Sprintf("x=%s i=%s; %s: $x is now %s / %s, reference demands %s", desc, ix.show, vr.set, c13Show(xa), c13ErrStr(err), c13Expect(ar, w)),
+				desc+" "+vr.set)
 		}
 		// the value held before must not be affected by the assignment
 		if !unchanged(x) {
-			c.Violate(cont+"-set-changed-old-value", fmt.Sprintf("x=%s i=%s; %s modified the previous value in place", desc, ix.show, v.set), desc+" "+v.set)
+			v(cont+"-set-changed-old-value", fmt.Sprintf("x=%s i=%s; %s modified the previous value in place", desc, ix.show, vr.set), desc+" "+vr.set)
 		}
 	}
 	pre := "EL/"
@@ -744,58 +747,89 @@ func TestVerifC13(t *testing.T) {
 			idxBySize[n] = c13Indices(n)
 		}
 
-		// lists
-		c.Parallel(maxList+1, func(l *vk.Local, n int) {
+		direct := func(key, msg, replay string) { c.Violate(key, msg, replay) }
+
+		// lists: sequential, smallest first (a few thousand cases)
+		l0 := vk.NewLocal()
+		for n := 0; n <= maxList; n++ {
 			ixs := idxBySize[n]
 			for k := range ixs {
-				c13CheckList(c, l, n, &ixs[k])
+				c13CheckList(direct, l0, n, &ixs[k])
 			}
-		})
+		}
 		c.Sample(fmt.Sprintf("list n=3: %d indices, e.g. %s %s %s", len(idxBySize[3]), idxBySize[3][0].show, idxBySize[3][7].show, idxBySize[3][20].show))
 
-		// strings
-		c.EnumSeqs(len(c13Syms), maxSyms, func(l *vk.Local, idx []int) {
+		// strings, length-lexicographic; those of <=2 symbols sequentially first so
+		// that the reported counterexample per key is the smallest one
+		var seqs [][]int
+		var gen func(n int, pre []int)
+		gen = func(n int, pre []int) {
+			if len(pre) == n {
+				seqs = append(seqs, append([]int{}, pre...))
+				return
+			}
+			for k := range c13Syms {
+				gen(n, append(pre, k))
+			}
+		}
+		nSmall := 0
+		for n := 0; n <= maxSyms; n++ {
+			gen(n, nil)
+			if n == 2 || (n == maxSyms && n < 2) {
+				nSmall = len(seqs)
+			}
+		}
+		doStr := func(v c13Sink, l *vk.Local, idx []int) {
 			st := c13MakeStr(idx)
 			ixs := idxBySize[len(st.s)]
 			for k := range ixs {
-				c13CheckString(c, l, &st, &ixs[k])
+				c13CheckString(v, l, &st, &ixs[k])
 			}
 			if len(idx) == 3 && idx[0] == 3 && idx[1] == 0 {
 				c.Sample(st.s)
 			}
-		})
+		}
+		for i := 0; i < nSmall; i++ {
+			doStr(direct, l0, seqs[i])
+		}
+		c.Merge(l0)
+		c.Parallel(len(seqs)-nSmall, func(l *vk.Local, i int) { doStr(direct, l, seqs[nSmall+i]) })
+		c.Set("strings", len(seqs))
 
-		// evaluator
+		// evaluator: parallel, violations reported afterwards in case order
 		var ecs []c13EvCase
 		for n := 0; n <= evList; n++ {
 			for k := range idxBySize[n] {
 				ecs = append(ecs, c13EvCase{n: n, ix: &idxBySize[n][k]})
 			}
 		}
-		var each func(pre []int)
-		each = func(pre []int) {
-			st := c13MakeStr(pre)
+		for _, idx := range seqs {
+			if len(idx) > evSyms {
+				break
+			}
+			st := c13MakeStr(idx)
 			ixs := idxBySize[len(st.s)]
 			for k := range ixs {
 				ecs = append(ecs, c13EvCase{st: &st, ix: &ixs[k]})
 			}
-			if len(pre) < evSyms {
-				for s := range c13Syms {
-					each(append(append([]int{}, pre...), s))
-				}
-			}
 		}
-		each(nil)
 		nw := vk.Workers()
 		evs := make(chan *eval.Evaler, nw)
 		for i := 0; i < nw; i++ {
 			evs <- eval.NewEvaler()
 		}
+		type viol struct{ key, msg, replay string }
+		found := make([][]viol, len(ecs))
 		c.Parallel(len(ecs), func(l *vk.Local, i int) {
 			ev := <-evs
-			c13CheckEval(c, l, ev, &ecs[i])
+			c13CheckEval(func(key, msg, replay string) { found[i] = append(found[i], viol{key, msg, replay}) }, l, ev, &ecs[i])
 			evs <- ev
 		})
+		for _, vs := range found {
+			for _, v := range vs {
+				c.Violate(v.key, v.msg, v.replay)
+			}
+		}
 		c.Set("evaluator_cases", len(ecs))
 		c.Set("not_judged_observations", c13NotJudged.Load())
 		c.Set("half_judged_observations", c13HalfJudged.Load())
